@@ -739,7 +739,7 @@ def gen_type(rng, depth, allow_optional=True):
         return rng.choice(SCALARS + ["dec", "datetime", "datetime", "time", "delta", "date"])
     k = rng.choice(["list", "list", "set", "tuple", "tuplevar", "dict", "dict", "data", "optional"])
     if k == "optional":
-        if not allow_optional or rng.random() < 0.4:
+        if not allow_optional:
             return gen_type(rng, depth - 1, False)
         inner = gen_type(rng, depth - 1, False)
         return inner if inner == "none" else {"optional": inner}
@@ -1082,7 +1082,7 @@ def law_audit(seed: int, n: int) -> list[str]:
             cc = int("".join(map(str, digits)))
             if cc < 10 ** 15 and abs(dd) <= MAX_SAFE_NUMBER and not (dd != 0 and abs(dd) < MIN_NORMAL):
                 f = float(dd)
-                if not math.isfinite(f) or (f == 0) != (cc == 0) or (cc != 0 and Decimal(str(f)) != dd):
+                if not math.isfinite(f) or (f == 0) != (cc == 0) or Decimal(str(f)) != dd:
                     bad.append(f"dec_float {dd}")
         k = gen_int(rng)
         if Decimal(str(k)).as_tuple() != (1 if k < 0 else 0, tuple(int(ch) for ch in str(abs(k))), 0):
@@ -1253,7 +1253,7 @@ class C14(Check):
     search_budget = {"quick": 3000, "thorough": 20000}
     rule = ("seeded data-class declarations (1-3 plain required fields, field types over int float str bool None bytes Decimal date "
             "datetime time timedelta UUID Enum (plain / int / str mixin) List Set Tuple[...] Tuple[T, ...] Dict[str|int, T] nested "
-            "Schema, depth <= 2 quick / 3 thorough, Optional[T] <= 10% spec-sweep only) x boundary-rich instances (negative / positive / "
+            "Schema, depth <= 2 quick / 3 thorough, Optional[T]) x boundary-rich instances (negative / positive / "
             "second- and microsecond-granular UTC offsets, negative and microsecond durations, timedelta.min/max, Decimals with 1-15 digits "
             "and exponents -400..400 incl. the subnormal edge and 2^53, huge ints, -0.0, 5e-324, escapes / astral text, empty containers), "
             "encoded by json.dumps(cls=JSONEncoder) or JSONSerializer; thorough adds a deterministic grid of offsets x clocks, durations and "
@@ -1303,8 +1303,8 @@ class C14(Check):
             return None          # not constructible: no instance to talk about
         if canon_val(mo["echo"]) != case["val"]:
             return "driver decoded a different instance"
-        dom = in_domain(case["ty"], case["val"]) and not has_optional(case["ty"])
-        if bool(mo["inDomain"]) != dom and not has_optional(case["ty"]):
+        dom = in_domain(case["ty"], case["val"])
+        if bool(mo["inDomain"]) != dom:
             return f"domain predicates differ: lean inDomain={mo['inDomain']} python in_domain={dom}"
         if bool(mo["hasInf"]) != has_inf(case["val"]) or bool(mo["setOfContainers"]) != set_of_containers(case["ty"]):
             return "known-defect predicates differ between Lean and the harness"
